@@ -327,7 +327,16 @@ func validateJWK(jwk document.JWK) error {
 // The object MAY include a purposes property, and if included, its value MUST be an array of one or more
 // of the strings listed in allowed purposes array.
 func validateKeyPurposes(pubKey document.PublicKey) error {
-	_, exists := pubKey[document.PurposesProperty]
+	purposes, exists := pubKey[document.PurposesProperty]
+
+	// Purpose() skips entries that are not strings: they are not purposes
+	if entries, ok := purposes.([]interface{}); ok {
+		for _, entry := range entries {
+			if _, isString := entry.(string); !isString {
+				return fmt.Errorf("invalid purpose: %v", entry)
+			}
+		}
+	}
 
 	if exists && len(pubKey.Purpose()) == 0 {
 		return fmt.Errorf("if '%s' key is specified, it must contain at least one purpose", document.PurposesProperty)
@@ -364,6 +373,28 @@ func validateIds(ids []string) error {
 	}
 
 	return nil
+}
+
+// getRequiredStringArray returns the entries of a non-empty array of strings. document.StringArray skips entries
+// that are not strings, so a list such as ["key1", 7] has to be refused here.
+func getRequiredStringArray(entry interface{}) ([]string, error) {
+	arr, err := getRequiredArray(entry)
+	if err != nil {
+		return nil, err
+	}
+
+	values := make([]string, 0, len(arr))
+
+	for _, e := range arr {
+		value, ok := e.(string)
+		if !ok {
+			return nil, errors.New("expected array of strings")
+		}
+
+		values = append(values, value)
+	}
+
+	return values, nil
 }
 
 func getRequiredArray(entry interface{}) ([]interface{}, error) {
